@@ -61,9 +61,14 @@ class FrameSetup(object):
         npo = self.prec.field('nextProbe')[1]
         seen.ptr_fields = {npo: (ZERO, ('ptr', 'SEEN', ZERO))}
         icon = mk_obj(st, 'heap:cached.icon', ICON_SIZE, kind='heap', default='unknown', heap=True)
+        # the list may continue with another interface's record (different context)
+        mk_obj(st, 'ext:ctx2', 1, kind='ext', default='unknown')
+        other = mk_obj(st, 'OTHER', self.srec.size, kind='heap', default='sym', heap=True, weak=True)
+        other.ptr_fields = {self.soff('iface_ctx'): (('ptr', 'ext:ctx2', ZERO),), self.soff('next'): (ZERO, ('ptr', 'OTHER', ZERO)),
+                            self.soff('see_list'): (ZERO,), self.soff('small_icon'): (ZERO,)}
         so.ptr_fields = {self.soff('see_list'): (ZERO, ('ptr', 'SEEN', ZERO)),
                          self.soff('small_icon'): (ZERO, ('ptr', 'heap:cached.icon', ZERO)),
-                         self.soff('next'): (ZERO,)}
+                         self.soff('next'): (ZERO, ('ptr', 'OTHER', ZERO))}
         so.cells[((), self.soff('mapper_known'))] = (1, KNOWN)
         so.cells[((), self.soff('see_list_count'))] = (4, SEEN_COUNT)
         so.cells[((), self.soff('small_icon_size'))] = (8, ICON_SIZE)
@@ -332,7 +337,7 @@ def live_heap(fs, st, ignore=('st',)):
     """Heap objects live in this final state (entry placeholders that did not exist on this path are skipped)."""
     out = []
     for oid, o in st.objs.items():
-        if not (o.heap and o.live) or o.weak or oid in ignore:
+        if not (o.heap and o.live) or o.weak or oid in ignore or oid == 'OTHER':
             continue
         if oid == 'heap:cached.icon' and entry_icon_exists(fs, st) is False:
             continue
